@@ -1,0 +1,290 @@
+//go:build verif
+
+package otto
+
+// ES5 section 15: the shape of the standard library (C14).  One clause per (owner, property):
+//   fn    a built-in function: attributes writable, non-enumerable, configurable (15, last
+//         paragraphs), the given length with attributes {false,false,false}, [[Class]] Function,
+//         prototype Function.prototype, bound to the Go function builtin<Owner><Name>, name = key
+//   const a value property with attributes {false,false,false}
+//   ref   a link to another well-known object (constructor <-> prototype)
+//   obj   [[Class]] and [[Prototype]] of the owner itself
+// gowp evaluates the composite literals of (*runtime).newContext (inline.go) on every run and
+// turns each clause into ground obligations (engine/table14.go).
+
+//@ builtin[C14] Object.prototype - obj class=Object proto=nil
+//@ builtin[C14] Function.prototype - obj class=Function proto=Object.prototype
+//@ builtin[C14] Array.prototype - obj class=Array proto=Object.prototype
+//@ builtin[C14] String.prototype - obj class=String proto=Object.prototype
+//@ builtin[C14] Boolean.prototype - obj class=Boolean proto=Object.prototype
+//@ builtin[C14] Number.prototype - obj class=Number proto=Object.prototype
+//@ builtin[C14] Date.prototype - obj class=Date proto=Object.prototype
+//@ builtin[C14] RegExp.prototype - obj class=RegExp proto=Object.prototype
+//@ builtin[C14] Error.prototype - obj class=Error proto=Object.prototype
+//@ builtin[C14] Math - obj class=Math proto=Object.prototype
+//@ builtin[C14] JSON - obj class=JSON proto=Object.prototype
+//@ builtin[C14] EvalError.prototype - obj proto=Error.prototype
+//@ builtin[C14] RangeError.prototype - obj proto=Error.prototype
+//@ builtin[C14] ReferenceError.prototype - obj proto=Error.prototype
+//@ builtin[C14] SyntaxError.prototype - obj proto=Error.prototype
+//@ builtin[C14] TypeError.prototype - obj proto=Error.prototype
+//@ builtin[C14] URIError.prototype - obj proto=Error.prototype
+//@ builtin[C14] Object - obj class=Function proto=Function.prototype
+//@ builtin[C14] Function - obj class=Function proto=Function.prototype
+//@ builtin[C14] Array - obj class=Function proto=Function.prototype
+//@ builtin[C14] String - obj class=Function proto=Function.prototype
+//@ builtin[C14] Boolean - obj class=Function proto=Function.prototype
+//@ builtin[C14] Number - obj class=Function proto=Function.prototype
+//@ builtin[C14] Date - obj class=Function proto=Function.prototype
+//@ builtin[C14] RegExp - obj class=Function proto=Function.prototype
+//@ builtin[C14] Error - obj class=Function proto=Function.prototype
+//@ builtin[C14] EvalError - obj class=Function proto=Function.prototype
+//@ builtin[C14] RangeError - obj class=Function proto=Function.prototype
+//@ builtin[C14] ReferenceError - obj class=Function proto=Function.prototype
+//@ builtin[C14] SyntaxError - obj class=Function proto=Function.prototype
+//@ builtin[C14] TypeError - obj class=Function proto=Function.prototype
+//@ builtin[C14] URIError - obj class=Function proto=Function.prototype
+//@ builtin[C14] global NaN const
+//@ builtin[C14] global Infinity const
+//@ builtin[C14] global undefined const
+//@ builtin[C14] global Object fn len=1 ref=Object
+//@ builtin[C14] global Function fn len=1 ref=Function
+//@ builtin[C14] global Array fn len=1 ref=Array
+//@ builtin[C14] global String fn len=1 ref=String
+//@ builtin[C14] global Boolean fn len=1 ref=Boolean
+//@ builtin[C14] global Number fn len=1 ref=Number
+//@ builtin[C14] global Date fn len=7 ref=Date
+//@ builtin[C14] global RegExp fn len=2 ref=RegExp
+//@ builtin[C14] global Error fn len=1 ref=Error
+//@ builtin[C14] global EvalError fn len=1 ref=EvalError
+//@ builtin[C14] global RangeError fn len=1 ref=RangeError
+//@ builtin[C14] global ReferenceError fn len=1 ref=ReferenceError
+//@ builtin[C14] global SyntaxError fn len=1 ref=SyntaxError
+//@ builtin[C14] global TypeError fn len=1 ref=TypeError
+//@ builtin[C14] global URIError fn len=1 ref=URIError
+//@ builtin[C14] global Math ref ref=Math
+//@ builtin[C14] global JSON ref ref=JSON
+//@ builtin[C14] global eval fn len=1
+//@ builtin[C14] global parseInt fn len=2
+//@ builtin[C14] global parseFloat fn len=1
+//@ builtin[C14] global isNaN fn len=1
+//@ builtin[C14] global isFinite fn len=1
+//@ builtin[C14] global decodeURI fn len=1
+//@ builtin[C14] global decodeURIComponent fn len=1
+//@ builtin[C14] global encodeURI fn len=1
+//@ builtin[C14] global encodeURIComponent fn len=1
+//@ builtin[C14] global escape fn len=1
+//@ builtin[C14] global unescape fn len=1
+//@ builtin[C14] Object getPrototypeOf fn len=1
+//@ builtin[C14] Object getOwnPropertyDescriptor fn len=2
+//@ builtin[C14] Object getOwnPropertyNames fn len=1
+//@ builtin[C14] Object create fn len=2
+//@ builtin[C14] Object defineProperty fn len=3
+//@ builtin[C14] Object defineProperties fn len=2
+//@ builtin[C14] Object seal fn len=1
+//@ builtin[C14] Object freeze fn len=1
+//@ builtin[C14] Object preventExtensions fn len=1
+//@ builtin[C14] Object isSealed fn len=1
+//@ builtin[C14] Object isFrozen fn len=1
+//@ builtin[C14] Object isExtensible fn len=1
+//@ builtin[C14] Object keys fn len=1
+//@ builtin[C14] Object.prototype toString fn len=0
+//@ builtin[C14] Object.prototype toLocaleString fn len=0
+//@ builtin[C14] Object.prototype valueOf fn len=0
+//@ builtin[C14] Object.prototype hasOwnProperty fn len=1
+//@ builtin[C14] Object.prototype isPrototypeOf fn len=1
+//@ builtin[C14] Object.prototype propertyIsEnumerable fn len=1
+//@ builtin[C14] Function.prototype toString fn len=0
+//@ builtin[C14] Function.prototype apply fn len=2
+//@ builtin[C14] Function.prototype call fn len=1
+//@ builtin[C14] Function.prototype bind fn len=1
+//@ builtin[C14] Array isArray fn len=1
+//@ builtin[C14] Array.prototype toString fn len=0
+//@ builtin[C14] Array.prototype toLocaleString fn len=0
+//@ builtin[C14] Array.prototype concat fn len=1
+//@ builtin[C14] Array.prototype join fn len=1
+//@ builtin[C14] Array.prototype pop fn len=0
+//@ builtin[C14] Array.prototype push fn len=1
+//@ builtin[C14] Array.prototype reverse fn len=0
+//@ builtin[C14] Array.prototype shift fn len=0
+//@ builtin[C14] Array.prototype slice fn len=2
+//@ builtin[C14] Array.prototype sort fn len=1
+//@ builtin[C14] Array.prototype splice fn len=2
+//@ builtin[C14] Array.prototype unshift fn len=1
+//@ builtin[C14] Array.prototype indexOf fn len=1
+//@ builtin[C14] Array.prototype lastIndexOf fn len=1
+//@ builtin[C14] Array.prototype every fn len=1
+//@ builtin[C14] Array.prototype some fn len=1
+//@ builtin[C14] Array.prototype forEach fn len=1
+//@ builtin[C14] Array.prototype map fn len=1
+//@ builtin[C14] Array.prototype filter fn len=1
+//@ builtin[C14] Array.prototype reduce fn len=1
+//@ builtin[C14] Array.prototype reduceRight fn len=1
+//@ builtin[C14] String fromCharCode fn len=1
+//@ builtin[C14] String.prototype toString fn len=0
+//@ builtin[C14] String.prototype valueOf fn len=0
+//@ builtin[C14] String.prototype charAt fn len=1
+//@ builtin[C14] String.prototype charCodeAt fn len=1
+//@ builtin[C14] String.prototype concat fn len=1
+//@ builtin[C14] String.prototype indexOf fn len=1
+//@ builtin[C14] String.prototype lastIndexOf fn len=1
+//@ builtin[C14] String.prototype localeCompare fn len=1
+//@ builtin[C14] String.prototype match fn len=1
+//@ builtin[C14] String.prototype replace fn len=2
+//@ builtin[C14] String.prototype search fn len=1
+//@ builtin[C14] String.prototype slice fn len=2
+//@ builtin[C14] String.prototype split fn len=2
+//@ builtin[C14] String.prototype substring fn len=2
+//@ builtin[C14] String.prototype toLowerCase fn len=0
+//@ builtin[C14] String.prototype toLocaleLowerCase fn len=0
+//@ builtin[C14] String.prototype toUpperCase fn len=0
+//@ builtin[C14] String.prototype toLocaleUpperCase fn len=0
+//@ builtin[C14] String.prototype trim fn len=0
+//@ builtin[C14] String.prototype substr fn len=2
+//@ builtin[C14] Boolean.prototype toString fn len=0
+//@ builtin[C14] Boolean.prototype valueOf fn len=0
+//@ builtin[C14] Number.prototype toString fn len=1
+//@ builtin[C14] Number.prototype toLocaleString fn len=0
+//@ builtin[C14] Number.prototype valueOf fn len=0
+//@ builtin[C14] Number.prototype toFixed fn len=1
+//@ builtin[C14] Number.prototype toExponential fn len=1
+//@ builtin[C14] Number.prototype toPrecision fn len=1
+//@ builtin[C14] Math abs fn len=1
+//@ builtin[C14] Math acos fn len=1
+//@ builtin[C14] Math asin fn len=1
+//@ builtin[C14] Math atan fn len=1
+//@ builtin[C14] Math atan2 fn len=2
+//@ builtin[C14] Math ceil fn len=1
+//@ builtin[C14] Math cos fn len=1
+//@ builtin[C14] Math exp fn len=1
+//@ builtin[C14] Math floor fn len=1
+//@ builtin[C14] Math log fn len=1
+//@ builtin[C14] Math max fn len=2
+//@ builtin[C14] Math min fn len=2
+//@ builtin[C14] Math pow fn len=2
+//@ builtin[C14] Math random fn len=0
+//@ builtin[C14] Math round fn len=1
+//@ builtin[C14] Math sin fn len=1
+//@ builtin[C14] Math sqrt fn len=1
+//@ builtin[C14] Math tan fn len=1
+//@ builtin[C14] Date parse fn len=1
+//@ builtin[C14] Date UTC fn len=7
+//@ builtin[C14] Date now fn len=0
+//@ builtin[C14] Date.prototype toString fn len=0
+//@ builtin[C14] Date.prototype toDateString fn len=0
+//@ builtin[C14] Date.prototype toTimeString fn len=0
+//@ builtin[C14] Date.prototype toLocaleString fn len=0
+//@ builtin[C14] Date.prototype toLocaleDateString fn len=0
+//@ builtin[C14] Date.prototype toLocaleTimeString fn len=0
+//@ builtin[C14] Date.prototype valueOf fn len=0
+//@ builtin[C14] Date.prototype getTime fn len=0
+//@ builtin[C14] Date.prototype getFullYear fn len=0
+//@ builtin[C14] Date.prototype getUTCFullYear fn len=0
+//@ builtin[C14] Date.prototype getMonth fn len=0
+//@ builtin[C14] Date.prototype getUTCMonth fn len=0
+//@ builtin[C14] Date.prototype getDate fn len=0
+//@ builtin[C14] Date.prototype getUTCDate fn len=0
+//@ builtin[C14] Date.prototype getDay fn len=0
+//@ builtin[C14] Date.prototype getUTCDay fn len=0
+//@ builtin[C14] Date.prototype getHours fn len=0
+//@ builtin[C14] Date.prototype getUTCHours fn len=0
+//@ builtin[C14] Date.prototype getMinutes fn len=0
+//@ builtin[C14] Date.prototype getUTCMinutes fn len=0
+//@ builtin[C14] Date.prototype getSeconds fn len=0
+//@ builtin[C14] Date.prototype getUTCSeconds fn len=0
+//@ builtin[C14] Date.prototype getMilliseconds fn len=0
+//@ builtin[C14] Date.prototype getUTCMilliseconds fn len=0
+//@ builtin[C14] Date.prototype getTimezoneOffset fn len=0
+//@ builtin[C14] Date.prototype setTime fn len=1
+//@ builtin[C14] Date.prototype setMilliseconds fn len=1
+//@ builtin[C14] Date.prototype setUTCMilliseconds fn len=1
+//@ builtin[C14] Date.prototype setSeconds fn len=2
+//@ builtin[C14] Date.prototype setUTCSeconds fn len=2
+//@ builtin[C14] Date.prototype setMinutes fn len=3
+//@ builtin[C14] Date.prototype setUTCMinutes fn len=3
+//@ builtin[C14] Date.prototype setHours fn len=4
+//@ builtin[C14] Date.prototype setUTCHours fn len=4
+//@ builtin[C14] Date.prototype setDate fn len=1
+//@ builtin[C14] Date.prototype setUTCDate fn len=1
+//@ builtin[C14] Date.prototype setMonth fn len=2
+//@ builtin[C14] Date.prototype setUTCMonth fn len=2
+//@ builtin[C14] Date.prototype setFullYear fn len=3
+//@ builtin[C14] Date.prototype setUTCFullYear fn len=3
+//@ builtin[C14] Date.prototype toUTCString fn len=0
+//@ builtin[C14] Date.prototype toISOString fn len=0
+//@ builtin[C14] Date.prototype toJSON fn len=1
+//@ builtin[C14] Date.prototype getYear fn len=0
+//@ builtin[C14] Date.prototype setYear fn len=1
+//@ builtin[C14] Date.prototype toGMTString fn len=0
+//@ builtin[C14] RegExp.prototype exec fn len=1
+//@ builtin[C14] RegExp.prototype test fn len=1
+//@ builtin[C14] RegExp.prototype toString fn len=0
+//@ builtin[C14] Error.prototype toString fn len=0
+//@ builtin[C14] JSON parse fn len=2
+//@ builtin[C14] JSON stringify fn len=3
+//@ builtin[C14] Object prototype ref ref=Object.prototype mode=0
+//@ builtin[C14] Object.prototype constructor ref ref=Object mode=0o101
+//@ builtin[C14] Object length const kind=number value=1
+//@ builtin[C14] Function prototype ref ref=Function.prototype mode=0
+//@ builtin[C14] Function.prototype constructor ref ref=Function mode=0o101
+//@ builtin[C14] Function length const kind=number value=1
+//@ builtin[C14] Array prototype ref ref=Array.prototype mode=0
+//@ builtin[C14] Array.prototype constructor ref ref=Array mode=0o101
+//@ builtin[C14] Array length const kind=number value=1
+//@ builtin[C14] String prototype ref ref=String.prototype mode=0
+//@ builtin[C14] String.prototype constructor ref ref=String mode=0o101
+//@ builtin[C14] String length const kind=number value=1
+//@ builtin[C14] Boolean prototype ref ref=Boolean.prototype mode=0
+//@ builtin[C14] Boolean.prototype constructor ref ref=Boolean mode=0o101
+//@ builtin[C14] Boolean length const kind=number value=1
+//@ builtin[C14] Number prototype ref ref=Number.prototype mode=0
+//@ builtin[C14] Number.prototype constructor ref ref=Number mode=0o101
+//@ builtin[C14] Number length const kind=number value=1
+//@ builtin[C14] Date prototype ref ref=Date.prototype mode=0
+//@ builtin[C14] Date.prototype constructor ref ref=Date mode=0o101
+//@ builtin[C14] Date length const kind=number value=7
+//@ builtin[C14] RegExp prototype ref ref=RegExp.prototype mode=0
+//@ builtin[C14] RegExp.prototype constructor ref ref=RegExp mode=0o101
+//@ builtin[C14] RegExp length const kind=number value=2
+//@ builtin[C14] Error prototype ref ref=Error.prototype mode=0
+//@ builtin[C14] Error.prototype constructor ref ref=Error mode=0o101
+//@ builtin[C14] Error length const kind=number value=1
+//@ builtin[C14] EvalError prototype ref ref=EvalError.prototype mode=0
+//@ builtin[C14] EvalError.prototype constructor ref ref=EvalError mode=0o101
+//@ builtin[C14] EvalError length const kind=number value=1
+//@ builtin[C14] RangeError prototype ref ref=RangeError.prototype mode=0
+//@ builtin[C14] RangeError.prototype constructor ref ref=RangeError mode=0o101
+//@ builtin[C14] RangeError length const kind=number value=1
+//@ builtin[C14] ReferenceError prototype ref ref=ReferenceError.prototype mode=0
+//@ builtin[C14] ReferenceError.prototype constructor ref ref=ReferenceError mode=0o101
+//@ builtin[C14] ReferenceError length const kind=number value=1
+//@ builtin[C14] SyntaxError prototype ref ref=SyntaxError.prototype mode=0
+//@ builtin[C14] SyntaxError.prototype constructor ref ref=SyntaxError mode=0o101
+//@ builtin[C14] SyntaxError length const kind=number value=1
+//@ builtin[C14] TypeError prototype ref ref=TypeError.prototype mode=0
+//@ builtin[C14] TypeError.prototype constructor ref ref=TypeError mode=0o101
+//@ builtin[C14] TypeError length const kind=number value=1
+//@ builtin[C14] URIError prototype ref ref=URIError.prototype mode=0
+//@ builtin[C14] URIError.prototype constructor ref ref=URIError mode=0o101
+//@ builtin[C14] URIError length const kind=number value=1
+//@ builtin[C14] Math E const kind=number
+//@ builtin[C14] Math LN10 const kind=number
+//@ builtin[C14] Math LN2 const kind=number
+//@ builtin[C14] Math LOG2E const kind=number
+//@ builtin[C14] Math LOG10E const kind=number
+//@ builtin[C14] Math PI const kind=number
+//@ builtin[C14] Math SQRT1_2 const kind=number
+//@ builtin[C14] Math SQRT2 const kind=number
+//@ builtin[C14] Number MAX_VALUE const kind=number
+//@ builtin[C14] Number MIN_VALUE const kind=number
+//@ builtin[C14] Number NaN const kind=number
+//@ builtin[C14] Number NEGATIVE_INFINITY const kind=number
+//@ builtin[C14] Number POSITIVE_INFINITY const kind=number
+//@ builtin[C14] Error.prototype name const kind=string value=Error mode=0o101
+//@ builtin[C14] Error.prototype message const kind=string mode=0o101
+//@ builtin[C14] EvalError.prototype name const kind=string value=EvalError mode=0o101
+//@ builtin[C14] RangeError.prototype name const kind=string value=RangeError mode=0o101
+//@ builtin[C14] ReferenceError.prototype name const kind=string value=ReferenceError mode=0o101
+//@ builtin[C14] SyntaxError.prototype name const kind=string value=SyntaxError mode=0o101
+//@ builtin[C14] TypeError.prototype name const kind=string value=TypeError mode=0o101
+//@ builtin[C14] URIError.prototype name const kind=string value=URIError mode=0o101
